@@ -73,7 +73,18 @@ def _std_summary(callee, t, args_iv, get_cell):
 
 
 class Intervals:
-    def __init__(self, body, summaries=None, depth=0, arg_intervals=None, sub_analyses=None):
+    def __init__(self, body, summaries=None, depth=0, arg_intervals=None, sub_analyses=None, variant_sets=False):
+        """variant_sets: track for every enum-valued cell the *set* of variants it may hold instead of
+        'one known variant or nothing':
+          * sets are joined by union (an `Ok(None)` / `Err(e)` / `Ok(Some(p))` merge in any arrival
+            order keeps the cells of `p`: they are vacuous wherever `Some` is excluded),
+          * variant knowledge follows a value into aggregate fields (`Ok(None)`: payload of Ok is None),
+            through `?` (`Try::branch`) and `Result::ok`,
+          * a switch on `discriminant(x)` prunes the edges whose variants are excluded and records the
+            variants of the edge taken.
+        Off by default (the behaviour every existing caller was confirmed with); inherited by the
+        analyses of callees."""
+        self.variant_sets = variant_sets
         self.b = body
         self.facts = body.facts
         self.depth = depth
@@ -246,7 +257,7 @@ class Intervals:
             vtag = ()
             if rv.get("agg") == "adt" and self._is_enum(rv["adt"]):
                 vtag = ("@" + rv["variant"],)
-                st["variant"][dcell] = rv["variant"]
+                st["variant"][dcell] = frozenset([rv["variant"]]) if self.variant_sets else rv["variant"]
             for i, fo in enumerate(rv["fields"]):
                 fty = fo.get("ty") or fo.get("place", {}).get("ty")
                 sub = (dcell[0], dcell[1] + vtag + (i,))
@@ -254,10 +265,18 @@ class Intervals:
                     src = cell_of_place(fo["place"])
                     if src[0] not in self.escaped:
                         self._copy_into(st, src, sub)
+                        if self.variant_sets:
+                            self._copy_variants(st, src, sub)
                 if fty and is_num_ty(fty):
                     st["iv"][sub] = self.operand_iv(st, fo)
             return
         if k == "discr":
+            if self.variant_sets:
+                src = cell_of_place(rv["place"])
+                ty = rv["place"].get("ty")
+                if src is not None and src[0] not in self.escaped and self._variant_names(ty):
+                    # remembered like a comparison: killed with either local, consulted by the switch
+                    st["pred"][dcell] = ("discr", src, ty)
             return
         if k == "unop" or k == "len":
             return
@@ -274,6 +293,47 @@ class Intervals:
         for (l, path), v in list(iv.items()):
             if l == sl and path[: len(sp)] == sp:
                 iv[(dst[0], dst[1] + path[len(sp):])] = v
+
+    # ---- variant sets (only with variant_sets=True) ---------------------------------------------
+    STD_VARIANTS = {"std::option::Option": {0: "None", 1: "Some"}, "std::result::Result": {0: "Ok", 1: "Err"},
+                    "std::ops::ControlFlow": {0: "Continue", 1: "Break"}}
+
+    def _variant_names(self, ty):
+        """{discriminant: variant name} of an enum type (generic arguments ignored), or None."""
+        if not ty:
+            return None
+        head = ty.split("<", 1)[0]
+        if head in self.STD_VARIANTS:
+            return self.STD_VARIANTS[head]
+        a = self.facts.d["adts"].get(head)
+        if a and a["kind"] == "Enum":
+            try:
+                return dict(self.facts.enum_variant_by_discr(head))
+            except Exception:
+                return None
+        return None
+
+    def _copy_variants(self, st, src, dst):
+        """Variant knowledge at and below cell `src` also holds at and below `dst` (a moved value)."""
+        sl, sp = src
+        for (l, path), v in list(st["variant"].items()):
+            if l == sl and path[: len(sp)] == sp:
+                st["variant"][(dst[0], dst[1] + path[len(sp):])] = v
+
+    def _map_variant(self, st, src, dst, rename):
+        """dst holds rename[v] when src holds v (`Ok -> Continue`, `Err -> Break`, ...)."""
+        known = st["variant"].get(src)
+        if isinstance(known, frozenset) and known and all(x in rename for x in known):
+            st["variant"][dst] = frozenset(rename[x] for x in known)
+
+    @staticmethod
+    def _excluded(known, name):
+        """Does variant knowledge `known` (a name, a set of names, or None) exclude variant `name`?"""
+        if known is None:
+            return False
+        if isinstance(known, frozenset):
+            return name not in known
+        return known != name
 
     def _desc(self, o):
         if o["k"] == "const":
@@ -370,6 +430,19 @@ class Intervals:
             if is_num_ty(dest["ty"]) and dcell not in st["iv"]:
                 st["iv"][dcell] = self._top(dest["ty"])
             return
+        if callee.endswith(" as std::ops::Try>::branch") and t["args"] and t["args"][0]["k"] in ("copy", "move"):
+            # `x?` on Result/Option: Ok(v) | Some(v) => ControlFlow::Continue(v); Err(e) => Break(Err(e))
+            src = cell_of_place(t["args"][0]["place"])
+            if src is not None and src[0] not in self.escaped:
+                for tag in ("@Ok", "@Some"):
+                    self._copy_into(st, (src[0], src[1] + (tag, 0)), (dcell[0], dcell[1] + ("@Continue", 0)))
+                self._copy_into(st, (src[0], src[1] + ("@Err",)), (dcell[0], dcell[1] + ("@Break", 0, "@Err")))
+                if self.variant_sets:
+                    # what is known about the variants travels along (the join needs it, see _join.vacuous)
+                    self._map_variant(st, src, dcell, {"Ok": "Continue", "Some": "Continue", "Err": "Break", "None": "Break"})
+                    for tag in ("@Ok", "@Some"):
+                        self._copy_variants(st, (src[0], src[1] + (tag, 0)), (dcell[0], dcell[1] + ("@Continue", 0)))
+            return
         summ = _std_summary(callee, t, args_iv, None)
         if summ is not None:
             for path, iv in summ.items():
@@ -389,6 +462,9 @@ class Intervals:
             src = cell_of_place(t["args"][0]["place"])
             if src is not None and src[0] not in self.escaped:
                 self._copy_into(st, (src[0], src[1] + ("@Ok",)), (dcell[0], dcell[1] + ("@Some",)))
+                if self.variant_sets:
+                    self._map_variant(st, src, dcell, {"Ok": "Some", "Err": "None"})
+                    self._copy_variants(st, (src[0], src[1] + ("@Ok", 0)), (dcell[0], dcell[1] + ("@Some", 0)))
             return
         if self.facts.has_body(target):
             r = self.local_summary(target, [self._arg_cells(st, a) for a in t["args"]])
@@ -452,7 +528,7 @@ class Intervals:
         for i, a in enumerate(args or []):
             for path, v in a.items():
                 ai[(i + 1, path)] = v
-        sub = Intervals(cb, self.summaries, self.depth + 1, ai, self.sub_analyses)
+        sub = Intervals(cb, self.summaries, self.depth + 1, ai, self.sub_analyses, variant_sets=self.variant_sets)
         self.sub_analyses[key] = sub
         r = None
         for rb in cb.return_blocks():
@@ -500,6 +576,8 @@ class Intervals:
 
     def refine_pred(self, st, pred, truth):
         op, x, y = pred
+        if op == "discr":
+            return True       # discriminant link (variant_sets): interpreted by the switch only
         if op == "contains":
             (slo, shi), (elo, ehi) = x
             if y[0] != "cell":
@@ -574,6 +652,18 @@ class Intervals:
                     elif vals == [1] and not is_oth:
                         feasible = self.refine_pred(s2, pred, True)
                 elif dc is not None and is_num_ty(t["discr_ty"]) and t["discr_ty"] != "bool":
+                    if pred is not None and pred[0] == "discr" and self.variant_sets:
+                        # switch on discriminant(x): keep the edge only if x may hold one of its variants
+                        names = self._variant_names(pred[2]) or {}
+                        here = {names[v] for v in vals if v in names}
+                        if is_oth:
+                            here |= {n for dv, n in names.items() if dv not in listed}
+                        known = s2["variant"].get(pred[1])
+                        if isinstance(known, frozenset):
+                            here &= known
+                        if not here:
+                            continue
+                        s2["variant"][pred[1]] = frozenset(here)
                     cur = self.get(s2, dc, t["discr_ty"])
                     if not is_oth and vals:
                         iv = (min(vals), max(vals))
@@ -609,13 +699,13 @@ class Intervals:
                     rc = (dc[0], dc[1][:-1] + (0,))
                     if tr is not None:
                         feasible = self._refine_cell(s2, rc, tr, ty)
-            if feasible:
+            if feasible and (bb, t["target"]) not in b.dead_edges:   # a restricted body (Body.restrict) drops edges
                 out.append((t["target"], s2))
             return out
         if k == "call":
             s2 = self._clone(st)
             self.call(s2, t, b.term_loc(bb))
-            if t.get("target") is not None:
+            if t.get("target") is not None and (bb, t["target"]) not in b.dead_edges:
                 out.append((t["target"], s2))
             return out
         for sc in b.succ.get(bb, []):
@@ -638,7 +728,7 @@ class Intervals:
             for i, comp in enumerate(path):
                 if isinstance(comp, str) and comp.startswith("@"):
                     kv = state["variant"].get((l, path[:i]))
-                    if kv is not None and "@" + kv != comp:
+                    if self._excluded(kv, comp[1:]):
                         return True
             return False
 
@@ -660,7 +750,20 @@ class Intervals:
         eq = {k: v for k, v in a["eq"].items() if b["eq"].get(k) == v}
         pred = {k: v for k, v in a["pred"].items() if b["pred"].get(k) == v}
         ovf = {k: v for k, v in a["ovf"].items() if b["ovf"].get(k) == v}
-        variant = {k: v for k, v in a["variant"].items() if b["variant"].get(k) == v}
+        if self.variant_sets:
+            # may-sets: union where both sides know something; a side on which the cell does not exist
+            # (it lies under a variant that side excludes) does not weaken the other side's knowledge
+            variant = {}
+            for k in set(a["variant"]) | set(b["variant"]):
+                va, vb = a["variant"].get(k), b["variant"].get(k)
+                if va is not None and vb is not None:
+                    variant[k] = va | vb
+                elif va is not None and vacuous(b, k):
+                    variant[k] = va
+                elif vb is not None and vacuous(a, k):
+                    variant[k] = vb
+        else:
+            variant = {k: v for k, v in a["variant"].items() if b["variant"].get(k) == v}
         return {"iv": iv, "eq": eq, "pred": pred, "ovf": ovf, "variant": variant}
 
     @staticmethod
@@ -674,7 +777,11 @@ class Intervals:
                 return False
         for m in ("eq", "pred", "ovf", "variant"):
             for k, v in b[m].items():
-                if a[m].get(k) != v:
+                w = a[m].get(k)
+                if m == "variant" and isinstance(v, frozenset) and isinstance(w, frozenset):
+                    if not w <= v:
+                        return False
+                elif w != v:
                     return False
         return True
 
